@@ -117,6 +117,8 @@ var cbSrc = map[string]string{
 	"len":      `function($e, $i, $a) { return $a->length; }`,
 	"false":    `function($e) { return false; }`,
 	"true":     `function($e) { return true; }`,
+	"snap":     `function($e, $i, $a) { return [$i, $a]; }`,
+	"notfirst": `function($e, $i, $a) { return $a->indexOf($e) !== 0; }`,
 	"local":    `function($e) { if (!isset($c)) { $c = 0; } $c = $c + 1; return $c; }`,
 	"localacc": `function($e, $i) { $k = $k ?? 10; $k = $k + $i; return $k; }`,
 	"default":  `function($e, $i = 7, $arr = null, $extra = 5) { return [$i, $extra]; }`,
